@@ -530,6 +530,7 @@ def run(run, tier):
     xsim.run_others(run, 'C10', EoN, sim, tier, per, total, 'full_vs_arrays')
     from . import esirx
     esirx.part(run, tier, 'C10', props, per)
+    from . import discx; discx.part(run, tier, 'C10', props, per)
     stats['scripted_simulators'] = per
     # ---- verdicts
     for key, (size, what, c) in spec_bad.items():
